@@ -25,7 +25,7 @@ func init() {
 var authEndpoints = []string{"vipnode_connect", "vipnode_update", "vipnode_peer", "vipnode_host", "vipnode_client", "pool_addNode", "pool_withdraw"}
 
 var forgeKinds = []string{"valid", "method", "identity", "otherkey", "nonce+1", "nonce-1", "param", "sigflip", "empty", "short",
-	"badencoding", "truncated", "style", "stale", "replay", "oldformat", "respell"}
+	"badencoding", "truncated", "style", "stale", "replay", "oldformat", "respell", "zero-id"}
 
 // AReq is one signed request as sent, plus how its signature was made.
 type AReq struct {
@@ -299,6 +299,23 @@ func (a *authWorld) send(rng *rand.Rand, endpoint, forge string) (*AReq, string,
 			}
 		}
 	}
+	if forge == "zero-id" {
+		if wallet {
+			forge, q.Forge = "empty", "empty"
+			sig, garbage = "", true
+		} else {
+			// the all-zero node id (not a curve point) with a well-formed signature that nobody made:
+			// R is not the x-coordinate of a curve point, so no public key can be recovered from it
+			id = strings.Repeat("0", 128)
+			idName = "zero-node-id"
+			q.Identity = idName
+			raw := make([]byte, 65)
+			raw[31] = []byte{5, 1, 2, 7, 11}[rng.Intn(5)]
+			raw[63] = byte(1 + rng.Intn(3))
+			raw[64] = byte(rng.Intn(2))
+			sig, garbage = base64.StdEncoding.EncodeToString(raw), true
+		}
+	}
 	if forge == "respell" {
 		// the signed request is sent under another spelling of the same identity (hex letter case):
 		// a different identity string, which the signature does not cover
@@ -436,7 +453,7 @@ func runC06(ctx *Ctx) {
 		var reqs []*AReq
 		var mon []string
 		steps := 10 + rng.Intn(10)
-		refusals := []string{"sigflip", "otherkey", "empty", "short", "badencoding", "truncated", "stale", "replay", "identity", "method", "param", "nonce+1", "respell"}
+		refusals := []string{"sigflip", "otherkey", "empty", "short", "badencoding", "truncated", "stale", "replay", "identity", "method", "param", "nonce+1", "respell", "zero-id"}
 		for k := 0; k < steps; k++ {
 			ep := authEndpoints[rng.Intn(len(authEndpoints))]
 			forge := "valid"
